@@ -124,7 +124,7 @@ def _run(scn, res, wd):
             start = scn['start']
             machine = scn['machine']
             ranges = [(exp['begin'], exp['end'])]
-            skip = set(range(scn['stack'] - 14, scn['stack'])) if scn['kind'] == '48' else set()
+            skip = (set(range(scn['stack'] - 18, scn['stack'])) | set(range(23552, 23562)) | {23611} | set(range(23672, 23675))) if scn['kind'] == '48' else set()
             if 'loader_range' in exp:
                 skip |= set(range(*exp['loader_range']))
         elif scn['source'] == 'profiler':
